@@ -56,7 +56,12 @@ func genC13(t *rapid.T) c13Case {
 		for i := 0; i < n; i++ {
 			var tr [3]string
 			for k := range tr {
-				tr[k] = rapid.StringMatching(`[a-d]{0,3}`).Draw(t, fmt.Sprintf("trap%d_%d", i, k))
+				if rapid.Bool().Draw(t, fmt.Sprintf("trapName%d_%d", i, k)) {
+					// texts that are themselves usable as xpaths (xpath_dynamic computed from them)
+					tr[k] = rapid.SampledFrom([]string{"a", "b", ".", "..", "*", ""}).Draw(t, fmt.Sprintf("trapN%d_%d", i, k))
+				} else {
+					tr[k] = rapid.StringMatching(`[a-d]{0,3}`).Draw(t, fmt.Sprintf("trap%d_%d", i, k))
+				}
 			}
 			c.Trap = append(c.Trap, tr)
 		}
@@ -78,6 +83,7 @@ const c13TrapSchema = `{"parser_settings":{"version":"omni.2.1","file_format_typ
   "obj":{"xpath":"a","object":{"v":{"xpath":"a"},"b":{"xpath":"../b"}}},
   "arr2":{"array":[{"xpath":"b"},{"xpath":"a"}]},
   "b":{"xpath":"b"},
+  "dynobj":{"xpath":"a","object":{"viaDyn":{"xpath_dynamic":{"xpath":"a"}},"viaFn":{"xpath_dynamic":{"custom_func":{"name":"concat","args":[{"xpath":"a"}]}}}}},
   "tobj":{"xpath":"a","template":"t"},
   "tarr":{"array":[{"xpath":"a","template":"t"}]}
 }},"t":{"object":{"inner":{"xpath":"a"}}}}}`
